@@ -166,6 +166,15 @@ Definition run_keypair (x : sx) : sx :=
   let same := match ea, eb with Some a, Some b => bytes_eqb a b | _, _ => false end in
   SL [sbool same; ra; rb].
 
+(* ( req subA subB meta ): one request compiled in two directories under a common parent; the cwd is a key
+   component, so the keys are equal exactly when the two directories are the same path (Path equality) *)
+Definition run_cwdpair (x : sx) : sx :=
+  let '(r, e) := key_full (nth_sx 0 x) in
+  let ok := match e with Some _ => true | None => false end in
+  let a := path_join vcwd (get_B (nth_sx 1 x)) in
+  let b := path_join vcwd (get_B (nth_sx 2 x)) in
+  SL [sbool (ok && bytes_eqb (path_hash a) (path_hash b)); sbool ok; sbool ok].
+
 Definition dispatch (leg : list N) (x : sx) : sx :=
   if bytes_eqb leg (bs "depinfo") then run_depinfo x
   else if bytes_eqb leg (bs "envdep") then run_envdep x
@@ -173,4 +182,5 @@ Definition dispatch (leg : list N) (x : sx) : sx :=
   else if bytes_eqb leg (bs "args") then run_args x
   else if bytes_eqb leg (bs "key") then run_key x
   else if bytes_eqb leg (bs "keypair") then run_keypair x
+  else if bytes_eqb leg (bs "cwdpair") then run_cwdpair x
   else err "unknown leg".
